@@ -20,6 +20,7 @@ import (
 	"fmt"
 	"sort"
 	"sync"
+	"sync/atomic"
 	"testing"
 	"time"
 
@@ -39,6 +40,7 @@ type vC05Conf struct {
 	N     any  `json:"n"`
 	Tomb  bool `json:"tomb"`
 	Nw    any  `json:"nw"`
+	Ahead []any `json:"ahead"` // writers whose version is generated while the gateway's hybrid clock is ahead of the bucket's
 }
 type vC05Beh struct {
 	Conf  vC05Conf   `json:"conf"`
@@ -47,11 +49,17 @@ type vC05Beh struct {
 
 const vC05MaxWriters = 3
 
+// how far the gateway's clock runs ahead for an "ahead" writer: the writer sleeps about this long after its commit; it must
+// exceed the time the writer spends parked between computing and writing, else the clocks have met and nothing is re-stamped
+// (the spec allows both outcomes)
+const vC05Skew = 80 * time.Millisecond
+
 type vC05Writer struct {
 	id        int
 	kind      string
 	parg      int
-	st        string // idle | begun | computed | failed | committed | errored | done
+	st        string // idle | begun | computed | failed | restamp | committed | errored | done
+	ahead     bool
 	release   chan struct{}
 	started   bool
 	lastErr   error // error returned by the last run of the update callback (observed, not decided, by the harness)
@@ -76,7 +84,8 @@ type vC05Harness struct {
 	key      string
 	cur      *vC05Writer
 	draining bool
-	events   chan string // "parked" | "done"
+	events   chan string // "parked" | "restamp" | "done"
+	skew     atomic.Uint64
 
 	// per behaviour
 	docid   string
@@ -113,6 +122,20 @@ func (o *vC05Observer) WriteUpdateWithXattrs(ctx context.Context, k string, xatt
 	return o.DataStore.WriteUpdateWithXattrs(ctx, k, xattrKeys, exp, previous, opts, wrapped)
 }
 
+// gate2 is LeakyBucketConfig.UpdateXattrsCallback: the post-commit CAS re-stamp of correctVersionAheadOfCAS goes through
+// UpdateXattrs; the writer is parked after its commit (and its catch-up sleep) and before the re-stamp write.
+func (h *vC05Harness) gate2(key string) {
+	h.mu.Lock()
+	if key != h.key || h.cur == nil || h.draining {
+		h.mu.Unlock()
+		return
+	}
+	w := h.cur
+	h.mu.Unlock()
+	h.events <- "restamp"
+	<-w.release
+}
+
 // gate is LeakyBucketConfig.UpdateCallback.
 func (h *vC05Harness) gate(key string) {
 	h.mu.Lock()
@@ -129,11 +152,13 @@ func (h *vC05Harness) gate(key string) {
 func vC05NewHarness(t *testing.T, allow bool) *vC05Harness {
 	h := &vC05Harness{t: t, events: make(chan string, 8)}
 	tb := base.GetTestBucket(t)
-	lb := base.NewLeakyBucket(tb, base.LeakyBucketConfig{UpdateCallback: h.gate})
+	lb := base.NewLeakyBucket(tb, base.LeakyBucketConfig{UpdateCallback: h.gate, UpdateXattrsCallback: h.gate2})
 	co := DefaultCacheOptions()
 	co.CachePendingSeqMaxWait = 100 * time.Millisecond // a leaked sequence (candidate F2) is skipped after this long; only affects how long Quiesce waits
 	h.db, h.ctx = SetupTestDBForBucketWithOptions(t, lb, DatabaseContextOptions{CacheOptions: &co, AllowConflicts: base.Ptr(allow)})
 	h.col, h.ctx = GetSingleDatabaseCollectionWithUser(h.ctx, t, h.db)
+	// the gateway's hybrid clock = the bucket's clock + skew; skew is non-zero only while an "ahead" writer runs
+	h.db.hlc.SetClockForTest(func() uint64 { return sgbucket.HLCWallClock() + h.skew.Load() })
 	cc := *h.col.DatabaseCollection
 	cc.dataStore = &vC05Observer{DataStore: h.col.dataStore, h: h}
 	h.wcol = &DatabaseCollectionWithUser{DatabaseCollection: &cc}
@@ -145,6 +170,11 @@ func (h *vC05Harness) run(w *vC05Writer) {
 	h.mu.Lock()
 	h.cur = w
 	h.mu.Unlock()
+	if w.ahead {
+		h.skew.Store(uint64(vC05Skew))
+	} else {
+		h.skew.Store(0)
+	}
 	if !w.started {
 		w.started = true
 		go h.exec(w)
@@ -160,7 +190,9 @@ func (h *vC05Harness) run(w *vC05Writer) {
 	h.mu.Lock()
 	h.cur = nil
 	h.mu.Unlock()
-	if ev == "parked" {
+	if ev == "restamp" {
+		w.st = "restamp"
+	} else if ev == "parked" {
 		if w.lastErr == nil {
 			w.st = "computed"
 		} else {
@@ -177,7 +209,7 @@ func (h *vC05Harness) run(w *vC05Writer) {
 
 // advance lets writer w take its next step: start it, or release it from the gate; a writer that already returned stays.
 func (h *vC05Harness) advance(w *vC05Writer) {
-	if w.st == "begun" || w.st == "computed" || w.st == "failed" {
+	if w.st == "begun" || w.st == "computed" || w.st == "failed" || w.st == "restamp" {
 		h.run(w)
 	}
 }
@@ -218,7 +250,7 @@ func (h *vC05Harness) drain() {
 	h.draining = true
 	h.mu.Unlock()
 	for _, w := range h.ws {
-		if w.started && (w.st == "computed" || w.st == "failed") {
+		if w.started && (w.st == "computed" || w.st == "failed" || w.st == "restamp") {
 			w.release <- struct{}{}
 			select {
 			case <-h.events:
@@ -312,6 +344,14 @@ func (h *vC05Harness) idOf(rev string, tree RevTree) int {
 	h.strange++
 	h.revID[rev] = 90 + h.strange
 	return 90 + h.strange
+}
+
+func vC05AheadList(xs []any) []int {
+	out := []int{}
+	for _, x := range xs {
+		out = append(out, vInt(x))
+	}
+	return out
 }
 
 func vC05Ints(xs []uint64, f func(uint64) int) []int {
@@ -469,7 +509,13 @@ func (h *vC05Harness) replay(tw *vTraceWriter, bi int, b vC05Beh) (aborted bool)
 	}
 	h.ws = nil
 	for i := 1; i <= vC05MaxWriters; i++ {
-		h.ws = append(h.ws, &vC05Writer{id: i, st: "idle", release: make(chan struct{}), body: Body{"w": i, "b": bi}})
+		w := &vC05Writer{id: i, st: "idle", release: make(chan struct{}), body: Body{"w": i, "b": bi}}
+		// the clock skew is an environment input: the gateway's clock is set ahead while a writer runs whose commit the
+		// behaviour follows with a re-stamp (the hybrid clock is monotonic, so other writers may come out ahead as well)
+		for _, st := range b.Steps {
+			w.ahead = w.ahead || (len(b.Conf.Ahead) > 0 && st.A == "Cas" && vInt(st.W) == i && st.E == "restamp")
+		}
+		h.ws = append(h.ws, w)
 	}
 	// the initial chain 1..n (real writes, gate open), tip possibly a tombstone
 	iseq := []int{}
@@ -495,7 +541,7 @@ func (h *vC05Harness) replay(tw *vTraceWriter, bi int, b vC05Beh) (aborted bool)
 	h.mu.Lock()
 	h.key = h.docid
 	h.mu.Unlock()
-	tw.Emit(h.snapshot(vObj{"a": "Reset", "beh": bi, "allow": b.Conf.Allow, "n": n, "tomb": b.Conf.Tomb, "nw": nw, "iseq": iseq, "doc": h.docid}))
+	tw.Emit(h.snapshot(vObj{"a": "Reset", "beh": bi, "allow": b.Conf.Allow, "n": n, "tomb": b.Conf.Tomb, "nw": nw, "ahead": vC05AheadList(b.Conf.Ahead), "iseq": iseq, "doc": h.docid}))
 
 	abort := func(why string) bool {
 		h.drain()
@@ -559,12 +605,25 @@ func (h *vC05Harness) replay(tw *vTraceWriter, bi int, b vC05Beh) (aborted bool)
 				w.pushHist = append([]string{nr}, anc...)
 				h.revID[nr], h.revStr[10+w.id] = 10+w.id, nr
 			}
+		case "Restamp":
+			if w.st != "restamp" {
+				continue // the clocks had met: this writer did not have to re-stamp, the step did not happen
+			}
+			h.advance(w)
 		case "RC", "Cas":
 			// the scheduler never decides by expectation: whatever the behaviour says, the step means "writer w runs until it
 			// parks or returns"; if the real code left the spec's path (e.g. it is parked where the spec expected it to
 			// have been refused) the recorded state shows it and pass C rejects the line
 			h.advance(w)
 		case "Ack":
+			if w.st == "restamp" {
+				// the real writer re-stamps although the behaviour did not schedule it: record what happened as its own step
+				h.advance(w)
+				if w.st == "committed" || w.st == "errored" {
+					h.registerReturn(w)
+				}
+				tw.Emit(h.snapshot(vObj{"a": "Restamp", "w": wi, "k": w.kind, "p": w.parg, "att": w.cbRuns, "exp": "unscheduled"}))
+			}
 			h.advance(w)
 			if w.st == "committed" || w.st == "errored" {
 				w.st, w.delivered = "done", true
@@ -576,6 +635,15 @@ func (h *vC05Harness) replay(tw *vTraceWriter, bi int, b vC05Beh) (aborted bool)
 			h.registerReturn(w)
 		}
 		tw.Emit(h.snapshot(vObj{"a": st.A, "w": wi, "k": w.kind, "p": w.parg, "att": w.cbRuns, "exp": st.E}))
+		if st.A == "Cas" && w.st == "restamp" && st.E != "restamp" {
+			// the real writer has to re-stamp although the behaviour continues as if it had not: let it re-stamp at once (no
+			// other writer in between) and record it as its own step - the rest of the behaviour is unaffected
+			h.advance(w)
+			if w.st == "committed" || w.st == "errored" {
+				h.registerReturn(w)
+			}
+			tw.Emit(h.snapshot(vObj{"a": "Restamp", "w": wi, "k": w.kind, "p": w.parg, "att": w.cbRuns, "exp": "unscheduled"}))
+		}
 	}
 	h.drain()
 	return false
